@@ -30,6 +30,9 @@ STATUS_ALPHABET = set('-.FES')
 _SHIM = NpShim()
 
 
+MAX_CANDIDATES = 3  # IEEE confirmations + replays per configuration (further mismatching paths are only counted)
+
+
 @contextlib.contextmanager
 def shimmed():
     old = fmodels.np
@@ -291,6 +294,8 @@ def explore_config(cfg: dict) -> dict:
             res['nontrivial_paths'] = res.get('nontrivial_paths', 0) + 1
         if r['bad'] or r['cell_bad']:
             res['mismatch_paths'] += 1
+            if len(res['candidates']) + res['spurious_under_uf'] >= MAX_CANDIDATES:
+                continue
             extra = []
             if not r['bad'] and r['cell_bad']:
                 extra = [z3.Or(*[a != b for (_, _, a, b) in r['cell_bad']])]
